@@ -127,12 +127,23 @@ func iterate(e *h.Eng, a int) {
 					it.Next()
 				}
 				if it.Valid() {
-					tgt := e.U.Key(1 + (a>>4)%e.U.N())
+					tgt := e.U.Key(1 + ((a>>4)&7)%e.U.N())
 					if opts.Reverse == (string(tgt) <= string(it.Key())) {
 						it.Seek(tgt)
 						seq = append(seq, -8)
 					}
 				}
+			}
+			if a&128 == 128 {
+				// ... two steps behind the Seek, then Rewind: the scan starts over from the first key
+				for n := 0; it.Valid() && n < 2; n++ {
+					if err := take(); err != nil {
+						return err
+					}
+					it.Next()
+				}
+				it.Rewind()
+				seq = append(seq, -9)
 			}
 			for ; it.Valid(); it.Next() {
 				if err := take(); err != nil {
@@ -261,7 +272,8 @@ func profLockstep(en *Env) {
 				sc = append(sc, scriptStep{"Put", k, id, 0})
 			}
 		}
-		for _, a := range []int{0, 1, 4, 5, 8 + 16*en.R.Intn(8), 9 + 16*en.R.Intn(8), 12 + 16*en.R.Intn(8), 13 + 16*en.R.Intn(8)} {
+		for _, a := range []int{0, 1, 4, 5, 8 + 16*en.R.Intn(8), 9 + 16*en.R.Intn(8), 12 + 16*en.R.Intn(8), 13 + 16*en.R.Intn(8),
+			136 + 16*en.R.Intn(8), 137 + 16*en.R.Intn(8), 136 + 16*en.R.Intn(8), 137 + 16*en.R.Intn(8)} {
 			sc = append(sc, scriptStep{"Iterate", 0, 0, a})
 		}
 		var cfgs []h.Cfg
